@@ -1,42 +1,140 @@
 #!/usr/bin/env python3
-"""Digests of the Rust source files the models were written from (comments and layout ignored).
-   check.py compares them with /repo's current files: when a file a property is anchored in has
-   changed, the model may be stale, and the check explores several times more inputs for that
-   property (it never raises an alarm by itself).
-   usage: fingerprint.py            print the files that differ from the recorded state
-          fingerprint.py --update   record the current state (done by hand after the model has
-                                    been brought up to date with a source change)"""
+"""The structural half of the tie between the hand-written model and /repo's source.
+
+The Gallina model was written from a particular text of each Rust item (function, impl block, macro
+definition, macro invocation, constant).  This tool records a digest of every top-level item of every
+source file (comments, layout and #[cfg(test)] modules ignored) in tools/source_fingerprints.json and
+reports which items of the files a property is anchored in differ from the record.
+
+check.py uses it on every run: a changed or removed item means the model may no longer describe the
+code, i.e. the correspondence that carried the theorems over to the implementation is broken.  The
+check then explores several times more inputs for a concrete failing one; if none is found it still
+reports the violation (the property is no longer shown to hold for this source) and ends the line with
+no-failing-input-found, naming the items in the replay file.
+
+usage: fingerprint.py            print the items that differ from the recorded state
+       fingerprint.py --update   record the current state (by hand, after the model has been brought up
+                                 to date with a source change and the correspondence re-established)"""
 import hashlib, json, os, re, sys
 
 ROOT = os.path.dirname(os.path.dirname(os.path.abspath(__file__)))
 REPO = "/repo"
 REC = os.path.join(ROOT, "tools", "source_fingerprints.json")
 CORE = ["fpdec-core/src/lib.rs", "fpdec-core/src/rounding.rs", "fpdec-core/src/powers_of_ten.rs", "src/lib.rs"]
+SKIP_ITEMS = re.compile(r"^(pub )?mod verif_hooks\b|^use |^pub use |^extern crate |^mod \w+ ?;|^pub mod \w+ ?;")
 
 
-def digest(path):
+def strip_comments(s):
+    """remove // and /* */ comments, keep string and char literals intact"""
+    out = []
+    i, n = 0, len(s)
+    while i < n:
+        c = s[i]
+        if c == '"':
+            j = i + 1
+            while j < n and s[j] != '"':
+                j += 2 if s[j] == "\\" else 1
+            out.append(s[i:j + 1]); i = j + 1
+        elif c == "'" and i + 2 < n and (s[i + 2] == "'" or (s[i + 1] == "\\" and "'" in s[i + 2:i + 6])):
+            j = s.index("'", i + 2 if s[i + 1] != "\\" else i + 3)
+            out.append(s[i:j + 1]); i = j + 1
+        elif s.startswith("//", i):
+            j = s.find("\n", i)
+            i = n if j < 0 else j
+        elif s.startswith("/*", i):
+            depth, j = 1, i + 2
+            while j < n and depth:
+                if s.startswith("/*", j): depth += 1; j += 2
+                elif s.startswith("*/", j): depth -= 1; j += 2
+                else: j += 1
+            i = j
+        else:
+            out.append(c); i += 1
+    return "".join(out)
+
+
+def items(path):
+    """top-level items of a Rust file as {key: digest}; #[cfg(test)] items and doc attributes dropped"""
     try:
-        s = open(path, encoding="utf-8").read()
+        s = strip_comments(open(path, encoding="utf-8").read())
     except OSError:
-        return "missing"
-    s = re.sub(r"/\*.*?\*/", " ", s, flags=re.S)
-    s = "\n".join(re.sub(r"//.*$", "", ln) for ln in s.split("\n"))
-    s = re.sub(r"\s+", " ", s)
-    return hashlib.sha1(s.encode()).hexdigest()
+        return {}
+    res = {}
+    i, n = 0, len(s)
+    start = 0
+    depth = 0
+    in_str = False
+    while i < n:
+        c = s[i]
+        if c == '"':
+            j = i + 1
+            while j < n and s[j] != '"':
+                j += 2 if s[j] == "\\" else 1
+            i = j + 1
+            continue
+        if c in "{([":
+            depth += 1
+        elif c in "})]":
+            depth -= 1
+            if depth == 0 and c == "}":
+                # an item ends here unless it is a struct-like expression followed by ';' (const X: T = T { .. };)
+                k = i + 1
+                while k < n and s[k] in " \t\r\n":
+                    k += 1
+                if k < n and s[k] == ";":
+                    i = k
+                add_item(res, s[start:i + 1]); start = i + 1
+        elif c == ";" and depth == 0:
+            add_item(res, s[start:i + 1]); start = i + 1
+        i += 1
+    return res
+
+
+def add_item(res, text):
+    t = re.sub(r"\s+", " ", text).strip()
+    if not t:
+        return
+    # separate leading attributes
+    attrs = []
+    while t.startswith("#["):
+        d, j = 0, 1
+        while j < len(t):
+            if t[j] == "[": d += 1
+            elif t[j] == "]":
+                d -= 1
+                if d == 0: break
+            j += 1
+        attrs.append(t[:j + 1]); t = t[j + 1:].strip()
+    if any(re.match(r"#\[cfg\((all\()?test\b", a) or "cfg(test)" in a for a in attrs):
+        return
+    if any("fpdec_verif" in a for a in attrs):
+        return
+    if not t or SKIP_ITEMS.match(t):
+        return
+    attrs = [a for a in attrs if not re.match(r"#\[(doc|inline|must_use|allow|cfg_attr\(docsrs)", a)]
+    mm = re.match(r"macro_rules! ?(\w+)", t)
+    m = re.match(r"((?:pub(?:\([a-z]+\))? )?(?:const |unsafe |async )*(?:fn|struct|enum|trait|type|static|const|mod|impl(?:<[^>]*>)?|union)\b[^{(;=]*)", t)
+    key = ("macro_rules! " + mm.group(1)) if mm else (m.group(1).strip() if m else t[:80])
+    key = re.sub(r"\s+", " ", key)
+    body = " ".join(attrs) + " " + t
+    k, c = key, 1
+    while k in res:
+        c += 1; k = "%s #%d" % (key, c)
+    res[k] = hashlib.sha1(body.encode()).hexdigest()[:16]
 
 
 def all_files():
     fs = []
     for base in ("src", "fpdec-core/src", "fpdec-macros/src"):
         for d, _, names in os.walk(os.path.join(REPO, base)):
-            for n in names:
-                if n.endswith(".rs"):
-                    fs.append(os.path.relpath(os.path.join(d, n), REPO))
+            for nm in names:
+                if nm.endswith(".rs"):
+                    fs.append(os.path.relpath(os.path.join(d, nm), REPO))
     return sorted(fs)
 
 
 def current():
-    return {f: digest(os.path.join(REPO, f)) for f in all_files()}
+    return {f: items(os.path.join(REPO, f)) for f in all_files()}
 
 
 def recorded():
@@ -46,25 +144,105 @@ def recorded():
         return {}
 
 
+# what each property's model was written from beyond the files the property is anchored in:
+# (file, regular expression on the item key, or None for every item of the file)
+KERNELS = r"u128_|u256_|i256_|i128_shifted|i128_div_mod_floor|MAX_N_FRAC"
+LOG10 = r"less_than_5|fn u8\b|fn u16|fn u32|fn u64|fn u128\b|i128_magnitude"
+P10 = ("fpdec-core/src/powers_of_ten.rs", None)
+RND = ("fpdec-core/src/rounding.rs", None)
+STRUCT = ("src/lib.rs", r"struct Decimal|impl Decimal|fn normalize|MAX_N_FRAC")
+EXTRA = {
+    "C01": [P10, STRUCT],
+    "C02": [P10, RND, ("fpdec-core/src/lib.rs", KERNELS), STRUCT],
+    "C03": [P10, RND, ("fpdec-core/src/lib.rs", KERNELS), STRUCT],
+    "C04": [P10, RND, ("fpdec-core/src/lib.rs", KERNELS), ("src/binops/mul.rs", None), ("src/binops/checked_mul.rs", None), STRUCT],
+    "C05": [P10, RND, ("fpdec-core/src/lib.rs", r"i128_div_mod_floor"), STRUCT],
+    "C06": [P10, STRUCT],
+    "C07": [("fpdec-core/src/parser.rs", None), P10, ("fpdec-core/src/lib.rs", r"i128_div_mod_floor"), RND, STRUCT],
+    "C08": [P10, ("fpdec-core/src/lib.rs", r"adjust_coeffs"), ("src/lib.rs", r"struct Decimal|rkyv|Archived")],
+    "C09": [P10, ("src/lib.rs", r"struct Decimal|impl Hash"), ("src/binops/cmp.rs", r"partial_eq")],
+    "C10": [P10, STRUCT, ("src/unops.rs", r"fract|impl Decimal")],
+    "C11": [P10, RND, ("fpdec-core/src/lib.rs", r"i128_div_mod_floor"), STRUCT],
+    "C12": [STRUCT],
+    "C13": [("fpdec-core/src/lib.rs", LOG10), STRUCT],
+    "C14": [P10, STRUCT],
+    "C15": [P10, ("fpdec-core/src/lib.rs", LOG10 + r"|i128_div_mod_floor"), STRUCT],
+    "C16": [P10, STRUCT],
+    "C17": [P10, RND, ("fpdec-core/src/lib.rs", KERNELS + r"|adjust_coeffs"), STRUCT],
+    "C18": [P10, STRUCT],
+    "C19": [("src/round.rs", None), ("src/binops/mul.rs", None), ("src/binops/div.rs", None), ("src/format.rs", r"Display")],
+    "C20": [P10, RND, ("fpdec-core/src/lib.rs", None), STRUCT],
+}
+# anchor files of which only some items matter to the property
+ANCHOR_FILTER = {
+    ("C08", "fpdec-core/src/lib.rs"): r"adjust_coeffs",
+    ("C08", "src/lib.rs"): r"struct Decimal|rkyv|Archived",
+    ("C09", "src/lib.rs"): r"struct Decimal|impl Hash",
+    ("C13", "src/lib.rs"): r"struct Decimal|fn normalize",
+    ("C15", "src/lib.rs"): r"struct Decimal|impl Decimal|MAX|MIN|ZERO|ONE",
+    ("C15", "fpdec-core/src/lib.rs"): LOG10 + r"|i128_div_mod_floor",
+    ("C15", "src/binops/cmp.rs"): r"impl_basics",
+    ("C03", "src/lib.rs"): r"struct Decimal|impl Decimal|fn normalize",
+    ("C07", "src/lib.rs"): r"struct Decimal|serde",
+    ("C20", "src/lib.rs"): r"struct Decimal|impl Decimal|fn normalize|packed",
+}
+
+
 def anchors():
+    """{pid: [(file, item filter or None)]}"""
     a = {}
     for l in open(os.path.join(ROOT, "properties.jsonl")):
         p = json.loads(l)
-        a[p["id"]] = sorted(set(p["anchors"]["files"]) | set(CORE))
+        pid = p["id"]
+        deps = {}
+        for f in p["anchors"]["files"]:
+            deps[f] = ANCHOR_FILTER.get((pid, f))
+        for f, rx in EXTRA.get(pid, []):
+            if f in deps:
+                if deps[f] is not None:
+                    deps[f] = None if rx is None else "(%s)|(%s)" % (deps[f], rx)
+            else:
+                deps[f] = rx
+        a[pid] = sorted(deps.items())
     return a
 
 
+def diff_file(cur, rec):
+    """(changed-or-removed, added) item keys"""
+    ch = [k for k in rec if cur.get(k) != rec[k]]
+    ad = [k for k in cur if k not in rec]
+    return ch, ad
+
+
 def changed_for(pid):
+    """items of the property's anchor files that changed or disappeared since the record: ['file :: item', ...]"""
     cur, rec = current(), recorded()
-    return [f for f in anchors()[pid] if cur.get(f, "missing") != rec.get(f)]
+    out = []
+    for f, rx in anchors()[pid]:
+        ch, ad = diff_file(cur.get(f, {}), rec.get(f, {}))
+        out += ["%s :: %s" % (f, k) for k in ch if rx is None or re.search(rx, k)]
+    return out
+
+
+def added_for(pid):
+    cur, rec = current(), recorded()
+    out = []
+    for f, rx in anchors()[pid]:
+        ch, ad = diff_file(cur.get(f, {}), rec.get(f, {}))
+        out += ["%s :: %s" % (f, k) for k in ad]
+    return out
 
 
 if __name__ == "__main__":
     if "--update" in sys.argv:
-        json.dump(current(), open(REC, "w"), indent=1, sort_keys=True)
-        print("recorded %d files" % len(current()))
+        c = current()
+        json.dump(c, open(REC, "w"), indent=1, sort_keys=True)
+        print("recorded %d files, %d items" % (len(c), sum(len(v) for v in c.values())))
     else:
         cur, rec = current(), recorded()
         for f in sorted(set(cur) | set(rec)):
-            if cur.get(f) != rec.get(f):
-                print("changed:", f)
+            ch, ad = diff_file(cur.get(f, {}), rec.get(f, {}))
+            for k in ch:
+                print("changed:", f, "::", k)
+            for k in ad:
+                print("added:  ", f, "::", k)
